@@ -26,7 +26,8 @@ type run1 struct {
 	points []crashPoint
 	final  rt.M
 	told   rt.M
-	dir    string
+	dir    string // snapshots of this run
+	top    string // scratch directory of the whole job (first run only)
 }
 
 func ev(name string, f rt.M) rt.M {
@@ -94,41 +95,49 @@ func runPoints(w *world, hist []Pt, from int, log *[]rt.M, snapshot func(phase s
 	w.onTx = nil
 }
 
-// doRun1 executes the uninterrupted run and takes a snapshot at every boundary.
-func doRun1(c Cfg, hist []Pt, lineage int64, snapshots bool) *run1 {
-	r := &run1{cfg: c, hist: hist, dir: tmpDir()}
-	w, err := openWorld(join(r.dir, "run1.db"), c, lineage)
+// runFrom executes one process lifetime on the store at file (created if missing): the
+// service and the task are started, hist[from:] is fed, and (if snapshots) the store is
+// copied at every boundary.  first: the very first lifetime (logs Start), otherwise the
+// lifetime after a crash (logs Restart = what the API reports before any task runs).
+func runFrom(c Cfg, hist []Pt, file string, from int, first, snapshots bool, lineage int64) *run1 {
+	r := &run1{cfg: c, hist: hist, dir: file + ".snaps"}
+	w, err := openWorld(file, c, lineage)
 	if err != nil {
-		rt.Fatalf("c08: open: %v", err)
+		rt.Fatalf("c08: open %s: %v", file, err)
+	}
+	if first {
+		r.log = append(r.log, ev("Start", rt.M{"state": w.state(), "told": w.told()}))
+	} else {
+		r.log = append(r.log, ev("Restart", rt.M{"state": w.state()}))
 	}
 	w.registerNamed()
 	w.startTask()
 	ntx := 0
-	snap := func(phase string, k int, pre rt.M) {
-		if phase == "after" {
-			ntx++
-		}
-		// the storage only changes at commits: one copy per number of completed commits
-		f := join(r.dir, fmt.Sprintf("s%d.db", ntx))
-		if _, err := os.Stat(f); err != nil {
-			if err := w.snap.Snapshot(f); err != nil {
-				rt.Fatalf("c08: snapshot: %v", err)
-			}
-		}
-		cp := crashPoint{at: phase, prefix: len(r.log), pre: pre, file: f, resume: k, k: k, ntx: ntx}
-		if phase == "idle" {
-			cp.resume = k + 1
-		}
-		r.points = append(r.points, cp)
-	}
-	if !snapshots {
-		snap = nil
-	}
-	r.log = append(r.log, ev("Start", rt.M{"state": w.state(), "told": w.told()}))
+	var snap func(phase string, k int, pre rt.M)
 	if snapshots {
-		snap("idle", -1, nil) // the state before any point is a crash point as well
+		if err := os.MkdirAll(r.dir, 0o755); err != nil {
+			rt.Fatalf("c08: %v", err)
+		}
+		snap = func(phase string, k int, pre rt.M) {
+			if phase == "after" {
+				ntx++
+			}
+			// the storage only changes at commits: one copy per number of completed commits
+			f := join(r.dir, fmt.Sprintf("s%d.db", ntx))
+			if _, err := os.Stat(f); err != nil {
+				if err := w.snap.Snapshot(f); err != nil {
+					rt.Fatalf("c08: snapshot: %v", err)
+				}
+			}
+			cp := crashPoint{at: phase, prefix: len(r.log), pre: pre, file: f, resume: k, k: k, ntx: ntx}
+			if phase == "idle" {
+				cp.resume = k + 1
+			}
+			r.points = append(r.points, cp)
+		}
+		snap("idle", from-1, nil) // the state before any (further) point is a crash point as well
 	}
-	runPoints(w, hist, 0, &r.log, snap)
+	runPoints(w, hist, from, &r.log, snap)
 	r.final = w.state()
 	r.told = w.told()
 	w.stopTask()
@@ -144,36 +153,54 @@ func doRun1(c Cfg, hist []Pt, lineage int64, snapshots bool) *run1 {
 	return r
 }
 
-// doRun2 restarts on the snapshot of cp, feeds the remaining data and returns the
-// complete two-run trace.  Crash points with the same storage content (same number
-// of completed commits) and the same remaining data have the same second run: it is
-// executed once (on its own copy of the snapshot) and shared.
-func doRun2(r *run1, cp crashPoint, lineage int64, tails map[[2]int][]rt.M) []rt.M {
+// doRun1 executes the uninterrupted run and takes a snapshot at every boundary.
+func doRun1(c Cfg, hist []Pt, lineage int64, snapshots bool) *run1 {
+	dir := tmpDir()
+	r := runFrom(c, hist, join(dir, "run1.db"), 0, true, snapshots, lineage)
+	r.top = dir
+	return r
+}
+
+func crashEvents(r *run1, cp crashPoint) []rt.M {
 	tr := append([]rt.M(nil), r.log[:cp.prefix]...)
 	if cp.at == "before" {
 		tr = append(tr, ev("Pre", cp.pre))
 	}
-	tr = append(tr, ev("Crash", rt.M{"at": cp.at, "k": cp.k, "resume": cp.resume}))
-	key := [2]int{cp.ntx, cp.resume}
-	tail, ok := tails[key]
-	if !ok {
-		file := fmt.Sprintf("%s.r%d", cp.file, cp.resume)
-		copyFile(cp.file, file)
-		w, err := openWorld(file, r.cfg, lineage)
-		if err != nil {
-			rt.Fatalf("c08: reopen on snapshot: %v", err)
-		}
-		// what the API reports after the restart, before any task runs
-		tail = append(tail, ev("Restart", rt.M{"state": w.state()}))
-		w.registerNamed()
-		w.startTask()
-		runPoints(w, r.hist, cp.resume, &tail, nil)
-		tail = append(tail, ev("End", rt.M{"final2": w.state(), "told2": w.told(), "final1": r.final, "told1": r.told}))
-		w.stopTask()
-		w.close(true)
-		tails[key] = tail
+	return append(tr, ev("Crash", rt.M{"at": cp.at, "k": cp.k, "resume": cp.resume}))
+}
+
+// crashTraces returns, for every crash point of r, the complete history "r up to the
+// crash; restart on that storage; remaining data".  Crash points with the same storage
+// content (same number of completed commits) and the same remaining data have the same
+// continuation: it is executed once (on its own copy of the snapshot) and shared.
+// depth > 1: the continuation is itself crashed at every one of its boundaries.
+func crashTraces(top *run1, r *run1, depth int, lineage int64) [][]rt.M {
+	type cont struct {
+		run   *run1
+		tails [][]rt.M // continuations of run (after its own Restart line is part of run.log)
 	}
-	return append(tr, tail...)
+	conts := map[[2]int]*cont{}
+	var out [][]rt.M
+	for _, cp := range r.points {
+		key := [2]int{cp.ntx, cp.resume}
+		c, ok := conts[key]
+		if !ok {
+			file := fmt.Sprintf("%s.r%d", cp.file, cp.resume)
+			copyFile(cp.file, file)
+			c = &cont{run: runFrom(r.cfg, r.hist, file, cp.resume, false, depth > 1, lineage)}
+			end := ev("End", rt.M{"final2": c.run.final, "told2": c.run.told, "final1": top.final, "told1": top.told})
+			c.tails = append(c.tails, append(append([]rt.M(nil), c.run.log...), end))
+			if depth > 1 {
+				c.tails = append(c.tails, crashTraces(top, c.run, depth-1, lineage)...)
+			}
+			conts[key] = c
+		}
+		head := crashEvents(r, cp)
+		for _, tail := range c.tails {
+			out = append(out, append(append([]rt.M(nil), head...), tail...))
+		}
+	}
+	return out
 }
 
 func copyFile(src, dst string) {
@@ -211,7 +238,7 @@ func doTaskRestart(r *run1, at int, lineage int64) []rt.M {
 	return tr
 }
 
-func (r *run1) cleanup() { os.RemoveAll(r.dir) }
+func (r *run1) cleanup() { os.RemoveAll(r.top) }
 
 func histFields(hist []Pt) []any {
 	out := []any{}
